@@ -24,7 +24,7 @@ def own_obligations(tier):
                          no_std=["--pointer-overflow-check", "--signed-overflow-check", "--undefined-shift-check"],
                          remove_bodies=[], encodes=["ABT_thread_resume", "ABTI_ythread_resume_and_push", "ABTI_sched_has_to_stop", "ABTI_sched_has_unit", "ABTI_pool_dec_num_blocked"],
                          bounds="1 pool, 1 blocked unit, <=2 complete evaluations of the stop condition", symbolic="pool access mode (PRIV / MPSC), placement of the other side's operation", timeout=300))
-    for k, nm in [(0, "suspend"), (1, "suspend_unlock"), (2, "suspend_join"), (3, "yield_user_yield"), (4, "thread_yield_to"), (5, "resume_yield_to")]:
+    for k, nm in [(0, "suspend"), (1, "suspend_unlock"), (2, "suspend_join"), (3, "yield_user_yield"), (4, "thread_yield_to"), (5, "resume_yield_to"), (6, "resume_suspend_to"), (7, "suspend_replace_sched")]:
         o.append(Obl("counter_" + nm, "C06/counter.c", "ABTI_ythread_callback_%s (with or without a pending migration to another pool) followed by ABTI_ythread_resume_and_push (yield-type callbacks: straight back to the pool): each pool's num_blocked equals the number of blocked units associated with it, never negative, zero at the end" % nm,
                      real=["src/thread.c", "src/ythread.c"], hooks=True, defs=["KIND=%d" % k, "VR_SP_EXTRA=vr_check", "VR_REAL_REQUESTS"], unwind=4, cut_loops=SPIN, object_bits=12, backend="cadical",
                      no_std=["--pointer-overflow-check", "--signed-overflow-check", "--undefined-shift-check"],
